@@ -144,6 +144,50 @@ def analyse(pid, ins, impl, model, pred):
     return res
 
 
+PIPE_THEOREMS = ["ShipVerif.Pipe.C06_in_order_no_invention", "ShipVerif.Pipe.C06_nothing_lost_while_open", "ShipVerif.Pipe.C06_exactly_once_when_drained",
+                 "ShipVerif.Pipe.C06_not_before_setup", "ShipVerif.Pipe.pinv_run", "ShipVerif.Pipe.pipeCfg_is_fixed", "ShipVerif.Pipe.C06_async_flush_reorders",
+                 "ShipVerif.Ws.C12_write_waits", "ShipVerif.Ws.wsCfg_is_fixed"]
+
+
+def pipe_part(R, tier, seed):
+    """C06 end to end: Pipe model theorems (two Ws endpoints + the receiving SHIP layer, all schedules) and the datapipe engine"""
+    p = C.lake_build(["ShipVerif.Props.C06Pipe"])
+    lean_ok = p.returncode == 0
+    aud = C.audit("C06pipe", PIPE_THEOREMS, ["ShipVerif.Props.C06Pipe"]) if lean_ok else []
+    cov = {"obligations": len(PIPE_THEOREMS), "discharged": sum(1 for a in aud if a["ok"]) if lean_ok else 0, "theorems": aud}
+    d = C.workdir("C06pipe")
+    runs = [(seed, 24)] if tier == "quick" else [(seed + k, 120) for k in range(3)]
+    scen, bad, samples = 0, [], []
+    for s, n in runs:
+        fout = os.path.join(d, "datapipe_out.txt")
+        q = C.run([C.HARNESS, "datapipe", "-seed", str(s), "-n", str(n), "-out", fout], cwd=d, timeout=C.engine_timeout())
+        if q.returncode != 0:
+            R.violation({"property": "C06", "kind": "harness datapipe crashed (a panic in a library goroutine ends the process)", "detail": (q.stdout or "")[-3000:]}, "pipecrash")
+            continue
+        by = {}
+        for l in open(fout).read().splitlines():
+            w = l.split(" ", 2)
+            if w[0] == "S":
+                scen += 1
+                by[int(w[1])] = w[2]
+                if len(samples) < 3:
+                    samples.append(w[2])
+            elif w[0] == "BAD":
+                bad.append({"seed": s, "scenario": int(w[1]), "n": n, "why": w[2], "setting": by.get(int(w[1]), "")})
+    if bad:
+        R.violation({"property": "C06", "kind": "datagrams handed to an open connection did not reach the peer's reader exactly once and in order",
+                     "replay": "harness datapipe -seed <seed> -n <n> -only <scenario>: two real SHIP connections over loopback websockets; `setting` = counts x payload padding per direction, application stalls, path stall, ending",
+                     "count": len(bad), "first": bad[:3]}, "pipe")
+    elif not lean_ok:
+        R.violation({"property": "C06", "broken": "lake build ShipVerif.Props.C06Pipe: a proof obligation of the end-to-end pipeline no longer checks (design facts of ws/websocket.go and ship/handshake.go are re-read on every run)",
+                     "detail": (p.stdout or "")[-3000:]}, "pipeproof", no_input=True)
+    bad_ax = [a for a in aud if not a["ok"]]
+    if lean_ok and bad_ax:
+        R.violation({"broken": "axiom audit", "theorems": bad_ax}, "pipeaxioms", no_input=True)
+    cov.update({"pipe_scenarios": scen, "pipe_samples": samples})
+    return cov
+
+
 def check(pid, tier, seed):
     R = C.Result(pid, tier, seed)
     R.assumptions = [
@@ -223,14 +267,18 @@ def check(pid, tier, seed):
     if pid in ("C11", "C01"):
         from . import hubprop
         hubcov = hubprop.hub_part(R, pid, tier, seed)
+    pipecov = None
+    if pid == "C06":
+        pipecov = pipe_part(R, tier, seed)
     if pid == "C09":
         # the stored SHIP id reaches the connection through the hub (ServeHTTP / connectFoundService): two real hubs
         from . import twohubs
         hubcov = dict(twohubs.th_part(R, pid, tier, seed), obligations=0, discharged=0)
     R.coverage = {
-        "obligations": len(obligations) + (hubcov["obligations"] if hubcov else 0),
-        "discharged": discharged + (hubcov["discharged"] if hubcov else 0),
+        "obligations": len(obligations) + (hubcov["obligations"] if hubcov else 0) + (pipecov["obligations"] if pipecov else 0),
+        "discharged": discharged + (hubcov["discharged"] if hubcov else 0) + (pipecov["discharged"] if pipecov else 0),
         "hub_part": hubcov,
+        "end_to_end": pipecov,
         "checker_cmd": "cd /verif/lean && lake build ShipVerif  (certificate shards by `decide +kernel`); lake env lean Audit.lean (#print axioms)",
         "trusted_base": C.TRUSTED_BASE,
         "theorems": aud,
